@@ -49,6 +49,10 @@ BACKLOG = 5
 #
 RE_LITERAL_STRING_START = re.compile(rb"\{(\d+)(\+)?\}$")
 
+# What can be the tag of a command (no atom-specials, no `+`).
+#
+RE_TAG = re.compile(rb'[^+(){} \x00-\x1f\x7f%*"\\]+')
+
 # This dict is all of the subprocesses that we have created. One for each
 # authenticated user with at least one active connection.
 #
@@ -589,7 +593,8 @@ class IMAPClient:
                             MAX_INPUT_SIZE,
                         )
                         await self.push(
-                            b"* BAD literal size exceeds maximum "
+                            self._refused_command_tag()
+                            + b" BAD literal size exceeds maximum "
                             b"allowed size\r\n"
                         )
                         self.ibuffer = []
@@ -646,7 +651,8 @@ class IMAPClient:
                             MAX_INPUT_SIZE,
                         )
                         await self.push(
-                            b"* BAD command exceeds maximum allowed size\r\n"
+                            self._refused_command_tag()
+                            + b" BAD command exceeds maximum allowed size\r\n"
                         )
                         self.ibuffer = []
                         self.ibuffer_size = 0
@@ -668,7 +674,8 @@ class IMAPClient:
                         MAX_INPUT_SIZE,
                     )
                     await self.push(
-                        b"* BAD command exceeds maximum allowed size\r\n"
+                        self._refused_command_tag()
+                        + b" BAD command exceeds maximum allowed size\r\n"
                     )
                     self.ibuffer = []
                     self.ibuffer_size = 0
@@ -715,6 +722,19 @@ class IMAPClient:
                 except asyncio.CancelledError:
                     pass
             await self.close()
+
+    ####################################################################
+    #
+    def _refused_command_tag(self) -> bytes:
+        """
+        The tag to answer the command we are assembling with when we refuse
+        it (too big): its first word if that reads like a tag, `*` otherwise.
+        The client is waiting for a response with that tag.
+        """
+        first_word = self.ibuffer[0].split(b" ", 1)[0] if self.ibuffer else b""
+        if first_word and RE_TAG.fullmatch(first_word):
+            return first_word
+        return b"*"
 
     ####################################################################
     #
